@@ -407,6 +407,8 @@ IN = 'sedfitter/utils/integrate.py'
 IP = 'sedfitter/utils/interpolate.py'
 CV = 'sedfitter/convolve/convolve.py'
 MUST_FIRE = [
+    ('D20 reverted: cube flux multiplied by the unit factor and converted again on assignment', [(CV, "np.sum(sed_val * response, axis=1).to(u.mJy)", "np.sum(sed_val * response, axis=1) * sed_cube.val.unit.to(u.mJy)")]),
+    ('cube error multiplied by the unit factor and converted again', [(CV, "np.sqrt(np.sum((sed_unc * response) ** 2, axis=1)).to(u.mJy)", "np.sqrt(np.sum((sed_unc * response) ** 2, axis=1)) * sed_cube.unc.unit.to(u.mJy)")]),
     ('midpoint 0.5 -> 0.25', [(FI, "nu1 = 0.5 * (nu_new_hz[i - 1] + nu_new_hz[i])", "nu1 = 0.25 * (nu_new_hz[i - 1] + nu_new_hz[i])")]),
     ('nu1 from i+1', [(FI, "nu1 = 0.5 * (nu_new_hz[i - 1] + nu_new_hz[i])", "nu1 = 0.5 * (nu_new_hz[i + 1] + nu_new_hz[i])")]),
     ('clip removed on the upper edge', [(FI, "            nu2 = min(max(nu2, self_nu_min), self_nu_max)\n", "")]),
@@ -425,10 +427,12 @@ MUST_FIRE = [
     ('SEDs read in wavelength order', [(CV, "s = SED.read(sed_file, unit_freq=u.Hz, unit_flux=u.mJy, order='nu')", "s = SED.read(sed_file, unit_freq=u.Hz, unit_flux=u.mJy, order='wav')")]),
     ('y not reversed with x', [(IN, "        x = x[::-1]\n        y = y[::-1]\n", "        x = x[::-1]\n")]),
     ('upper end value from the wrong pair', [(IN, "ymax = interp1d_fast(x[i2 - 1:i2 + 1], y[i2 - 1:i2 + 1], xmax)", "ymax = interp1d_fast(x[i2:i2 + 2], y[i2:i2 + 2], xmax)")]),
-    ('driver 2 flux from squared values', [(CV, "fluxes[i].flux[:, i_ap] = np.sum(sed_val * response, axis=1) * val_factor", "fluxes[i].flux[:, i_ap] = np.sum(sed_val * response ** 2, axis=1) * val_factor")]),
+    ('driver 2 flux from squared values', [(CV, "fluxes[i].flux[:, i_ap] = np.sum(sed_val * response, axis=1).to(u.mJy)", "fluxes[i].flux[:, i_ap] = np.sum(sed_val * response ** 2, axis=1).to(u.mJy)")]),
     ('response stored at the previous bin', [(FI, "f.response[i] = integrate_subset", "f.response[i - 1] = integrate_subset")]),
 ]
 MUST_SILENT = [
+    ('cube flux converted by the assignment into the mJy array', [(CV, "np.sum(sed_val * response, axis=1).to(u.mJy)", "np.sum(sed_val * response, axis=1)")]),
+    ('cube flux as bare values times the factor, unit re-attached', [(CV, "np.sum(sed_val * response, axis=1).to(u.mJy)", "np.sum(sed_val.value * response, axis=1) * sed_cube.val.unit.to(u.mJy) * u.mJy")]),
     ('np.clip for the clamp', [(FI, "            nu1 = min(max(nu1, self_nu_min), self_nu_max)\n            nu2 = min(max(nu2, self_nu_min), self_nu_max)\n", "            nu1 = np.clip(nu1, self_nu_min, self_nu_max)\n            nu2 = np.clip(nu2, self_nu_min, self_nu_max)\n")]),
     ('midpoint as sum over 2', [(FI, "nu2 = 0.5 * (nu_new_hz[i] + nu_new_hz[i + 1])", "nu2 = (nu_new_hz[i + 1] + nu_new_hz[i]) / 2.")]),
     ('trapezium with commuted factors', [(IN, "integrals = 0.5 * (x[1:] - x[:-1]) * (y[1:] + y[:-1])", "integrals = (y[:-1] + y[1:]) * (x[1:] - x[:-1]) / 2.")]),
